@@ -301,6 +301,8 @@ class Terms:
                 return frozenset([('S', next(iter(inner)))])
             if base == 'RCON':
                 return frozenset([('RCON', norm(e.slice).replace(' ', ''))])
+        if isinstance(e, ast.BinOp) and isinstance(e.op, ast.BitXor):
+            return self.ev(e.left) ^ self.ev(e.right)
         if isinstance(e, ast.Call):
             last = norm(e.func).split('.')[-1]
             if last == 'bitwise_xor':
@@ -437,7 +439,36 @@ def run(ctx, prog):
     ctx.pattern('ifcol_in<col_out:' in txt and 'return_expand_forward(' in txt and 'return_expand_backward(' in txt, 'C10-D3', f'{f.key}::dispatch',
                 'forward/backward dispatch on col_in < col_out changed shape', 'forward when col_in < col_out, else backward', f.where())
     ks = prog.need_func(A, 'key_schedule')
-    txt = norm(ks.node).replace(' ', '')
-    ctx.pattern('keys=key_expansion(key,col_in=0)' in txt and 'int(keys.shape[1]/16),16)' in txt, 'C10-D3', f'{ks.key}::reshape', 'key_schedule shape changed',
-                'key_schedule = full forward expansion reshaped to (keys, rounds, 16)', ks.where())
+    from .. import confinterp as cf
+    ke = prog.need_func(A, 'key_expansion')
+    bad, und = [], None
+    for nbytes in (176, 208, 240):
+        for kdim in (1, 2):
+            it = cf.Interp(prog)
+            it.opaque_funcs = {ke.key}
+            it.opaque_attrs = {ke.key: lambda a, k, nbytes=nbytes: {'shape': (cf.Sym('n'), nbytes), 'ndim': 2}}
+            klen = {176: 16, 208: 24, 240: 32}[nbytes]
+            keysym = cf.Sym('key', attrs={'shape': (cf.Sym('n'), klen) if kdim == 2 else (klen,), 'ndim': kdim})
+            try:
+                r = it.call(ks, kwargs={ks.params[0]: keysym})
+            except cf.Unknown as e:
+                und = str(e)
+                break
+            except cf.Raised as e:
+                bad.append(f'{klen}-byte key refused ({e.kind})')
+                continue
+            want_shape = (cf.Sym('n'), nbytes // 16, 16) if kdim == 2 else (nbytes // 16, 16)
+            ok = isinstance(r, cf.Sym) and r.term and r.term[0] == 'call' and r.term[1].endswith('.reshape')
+            if ok:
+                a = r.term[2]
+                shp = a[0] if len(a) == 1 and isinstance(a[0], tuple) else tuple(a)
+                ok = tuple(shp) == want_shape and r.term[1].startswith('key_expansion(') and 'col_in=0' in r.term[1] and 'col_out' not in r.term[1]
+            if not ok:
+                bad.append(f'{klen}-byte key ({kdim}-D): key_schedule returns {getattr(r, "name", r)}, expected the forward expansion from column 0 reshaped to {cf.fmt(want_shape)}')
+        if und:
+            break
+    if und:
+        ctx.undecided('C10-D3', f'{ks.key}::reshape', f'key_schedule not evaluable: {und}', ks.where())
+    else:
+        ctx.check(not bad, 'C10-D3', f'{ks.key}::reshape', bad[0] if bad else '', 'key_schedule = full forward expansion from column 0, reshaped to ([keys,] rounds, 16) for the three key sizes', ks.where())
     ctx.floor('AES expansion rule obligations', n, 8)
